@@ -111,7 +111,8 @@ theorem run_makeBackupFor_file (o : Options) {s : DState} {p b : Bytes} {m : Nat
                         fs := (s.fs.erase p).set (backupName o p) (.file b m),
                         trace := s.trace ++ [.rename p (backupName o p)],
                         opCount := s.opCount + (dirPrefixes (backupName o p)).length + 1 }) := by
-  rw [makeBackupFor_run, if_neg (by rw [hnot]; simp),
+  rw [makeBackupFor_run, if_neg (by rw [notFileAt_of_lookup_file (by rw [absPath_nil hcwd]; exact h)]; simp),
+    if_neg (by rw [hnot]; simp),
     ensureParentDirs_run_exist (backupName o p) { s with backedUp := s.backedUp ++ [backupName o p] } (C18.backupName_ne_nil o p) hf
       (by intro d hd; show (s.fs.lookup (absPath s d)).isSome = true; rw [absPath_nil hcwd]; exact hdirs d hd)]
   simp only []
